@@ -47,4 +47,26 @@ theorem matcherMatch_domain : DomainLaw matcherMatch := by
   | nil => rfl
   | cons pt rest ih => simp [matcherMatch.go, patMatch, h, ih]
 
+/-- A matcher given by a TABLE of the real go-git matcher's verdicts, for pattern sets the model does not interpret
+(`key ps = some k`: a `.gitignore` in full gitignore syntax, identified by directory and content); interpreted pattern
+sets keep `matcherMatch`. As in go-git's `pattern.Match`, a path not longer than the domain never matches. -/
+def tableMatch (key : PatSet → Option String) (tbl : List (String × List String × Bool)) :
+    PatSet → List String → List String → Bool → Bool :=
+  fun ps dom toks isDir =>
+    match key ps with
+    | some k => decide (toks.length > dom.length) && tbl.contains (k, toks, isDir)
+    | none => matcherMatch ps dom toks isDir
+
+/-- whatever the table says, the table matcher obeys the domain law — so every walk theorem applies to scans whose
+`.gitignore` files use the full gitignore syntax, with go-git's verdicts as data -/
+theorem tableMatch_domain (key : PatSet → Option String) (tbl : List (String × List String × Bool)) :
+    DomainLaw (tableMatch key tbl) := by
+  intro ps dom toks isDir h
+  unfold tableMatch
+  cases key ps with
+  | none => exact matcherMatch_domain ps dom toks isDir h
+  | some k =>
+    have : ¬ toks.length > dom.length := by omega
+    simp [this]
+
 end Scalibr.Walk
